@@ -127,12 +127,13 @@ def run(rep: Report, tier: str) -> None:
     classes = fnlog.Classes()
     events: List[List[Any]] = []
     cfg_of: Dict[int, Dict[str, Any]] = {}
-    for cid, cfg in enumerate(cfgs, start=1):
-        cfg_of[cid] = cfg
+    cids = fnlog.family_ids(cfgs)
+    for cid, cfg in zip(cids, cfgs):
+        cfg_of.setdefault(cid, cfg)
         ev, raw = fnlog.events_for_cfg(cid, cfg, True, False, classes, draws=((0, 0), (1, 0), (0, 0)))
         events += ev
         rep.case((cfg["op"], json.dumps(cfg, sort_keys=True, default=str)), nontrivial=cfg["op"] not in ops.EXACT1 or True)
-    hist_ev = fnlog.other_history_events(cfgs, True, False, classes) if tier == "quick" else []
+    hist_ev = fnlog.other_history_events(cfgs, cids, True, False, classes) if tier == "quick" else []
     events += hist_ev
     events.sort(key=lambda e: e[2])     # stable: per configuration id, this process's events first, then the other history's
     rep.extra["events_from_the_reverse_order_history"] = len(hist_ev)
